@@ -1,6 +1,10 @@
 package h
 
-import "strings"
+import (
+	"math"
+	"strconv"
+	"strings"
+)
 
 // Replay checks per property: each takes one case exported by TLC (the JSON
 // record printed by the MC module's Export constraint) and returns a verdict.
@@ -63,6 +67,22 @@ func checkC01(c Node) Verdict {
 			}
 		}
 	}
+	// order embeddings: a filter built from comparisons only means the same for any strictly increasing renaming of its
+	// numbers, so the abstract 0, 1, 2 ... of the specification are also bound to float64 neighbours one unit in the
+	// last place apart (column values and constants alike)
+	if c["fam"] == "num" && !arith {
+		q := c["q"].(Node)
+		for _, em := range embeddings {
+			doc := embedValue(FromTagged(c["doc"]), em).(map[string]any)
+			wantE := embedValue(any(want), em)
+			sql := Style{}.Query(embedLits(q, em).(Node))
+			out := Run(doc, sql, false)
+			v.Execs++
+			if out.Panic != nil || out.Err != nil || !ExactEqual(any(out.Rows), wantE) {
+				return fail("result", sql, append(Features(q), "embed:"+em.name), "numbers renamed in order (%s): want %s got %s", em.name, Canon(wantE), out.Describe())
+			}
+		}
+	}
 	// a predicate and its negation partition the rows: both statements run on one and
 	// the same document object, the negated one second
 	if negT, ok := c["neg"].(Node); ok && negT["t"] == "arr" {
@@ -109,6 +129,41 @@ func checkC05(c Node) Verdict {
 	want, _ := ExpectedRows(c)
 	// non-trivial: sorting changes the sequence, or the window cuts it
 	v.Nontrivial = !Equal(any(before), any(sorted)) || (hasWindow(q) && len(want) > 0 && len(want) < len(sorted))
+	if !v.OK || q["k"] == "union" {
+		return v
+	}
+	// what the engine returns for the case as it stands (checked against the specification above): where keys tie,
+	// the variants below must keep the engine's own choice
+	plain := Run(FromTagged(c["doc"]).(map[string]any), Style{}.Query(q), false)
+	if plain.Panic != nil || plain.Err != nil {
+		return v
+	}
+	// LIMIT / OFFSET counts written with a leading zero are the same decimal numbers
+	if lim := num(q["limit"]); lim >= 0 && lim < 2000000000 {
+		sql := Style{PadCounts: true}.Query(q)
+		out := Run(FromTagged(c["doc"]).(map[string]any), sql, false)
+		v.Execs += 2
+		if out.Panic != nil || out.Err != nil || !ExactEqual(any(out.Rows), any(plain.Rows)) {
+			return fail("result", sql, append(Features(q), "padded-counts"), "counts with a leading zero: want %s got %s", Canon(any(plain.Rows)), out.Describe())
+		}
+	}
+	// the order of rows depends on the order of the keys only: the same case with its numbers renamed in order to
+	// float64 neighbours and to int64 values no float64 tells apart
+	for _, f := range Features(q) {
+		if strings.HasPrefix(f, "bin:") || strings.HasPrefix(f, "un:") || strings.HasPrefix(f, "agg:") || strings.HasPrefix(f, "fn:") {
+			return v
+		}
+	}
+	for _, em := range append([]embedding{embedInt64}, embeddings[:2]...) {
+		doc := embedValue(FromTagged(c["doc"]), em).(map[string]any)
+		wantE := embedValue(any(plain.Rows), em)
+		sql := Style{}.Query(embedLits(q, em).(Node))
+		out := Run(doc, sql, false)
+		v.Execs++
+		if out.Panic != nil || out.Err != nil || !ExactEqual(any(out.Rows), wantE) {
+			return fail("result", sql, append(Features(q), "embed:"+em.name), "numbers renamed in order (%s): want %s got %s", em.name, Canon(wantE), out.Describe())
+		}
+	}
 	return v
 }
 
@@ -144,5 +199,78 @@ func checkC03(c Node) Verdict {
 func checkC06(c Node) Verdict {
 	v := CheckEngine(c, EngineOpts{})
 	v.Nontrivial = num(c["dups"]) >= 1 // duplicate rows exist, so removing (or keeping) them is observable
+	return v
+}
+
+// embedding is a strictly increasing map from the specification's small naturals to Go numbers, with the text of each as
+// a constant.
+type embedding struct {
+	name string
+	at   func(i int) any
+	lit  func(i int) string
+}
+
+func ulpsFrom(name string, base float64) embedding {
+	at := func(i int) float64 {
+		x := base
+		for ; i > 0; i-- {
+			x = math.Nextafter(x, math.Inf(1))
+		}
+		return x
+	}
+	return embedding{name, func(i int) any { return at(i) }, func(i int) string { return strconv.FormatFloat(at(i), 'f', -1, 64) }}
+}
+
+var embeddings = []embedding{
+	ulpsFrom("ulps above 0.3", 0.29999999999999993),
+	{"integers below 2^53", func(i int) any { return 9007199254740970 + float64(i) }, func(i int) string { return strconv.Itoa(9007199254740970 + i) }},
+	ulpsFrom("ulps above 1e21", 1e21),
+	ulpsFrom("ulps above 1/3", 1.0/3),
+}
+
+// integers no float64 tells apart, held as int64 (one scalar kind per column)
+var embedInt64 = embedding{"int64 above 2^53", func(i int) any { return int64(9007199254740992) + int64(i) }, func(i int) string { return strconv.Itoa(9007199254740992 + i) }}
+
+func embedValue(v any, em embedding) any {
+	switch t := v.(type) {
+	case map[string]any:
+		out := map[string]any{}
+		for k, x := range t {
+			out[k] = embedValue(x, em)
+		}
+		return out
+	case []any:
+		out := make([]any, len(t))
+		for i, x := range t {
+			out[i] = embedValue(x, em)
+		}
+		return out
+	case float64:
+		if t >= 0 && t == float64(int(t)) && t < 1000 {
+			return em.at(int(t))
+		}
+	}
+	return v
+}
+
+// embedLits rewrites the numeric literals of a query; the text is the shortest that reads back as the same float64.
+func embedLits(v any, em embedding) any {
+	switch t := v.(type) {
+	case map[string]any:
+		if t["t"] == "num" && num(t["d"]) == 1 && num(t["n"]) >= 0 {
+			return Node{"t": "num", "n": t["n"], "d": t["d"], "raw": em.lit(int(num(t["n"])))}
+		}
+		out := Node{}
+		for k, x := range t {
+			out[k] = embedLits(x, em)
+		}
+		return out
+	case []any:
+		out := make([]any, len(t))
+		for i, x := range t {
+			out[i] = embedLits(x, em)
+		}
+		return out
+	}
 	return v
 }
